@@ -119,6 +119,16 @@ class World:
             z = F(v0, template=x)
         elif route == 'from_fxp':
             z = F(x)
+        elif route == 'ctor_sizes':
+            z = F(x, fx[0], min(fx[1] + 2, 52), fx[2] + 1)
+        elif route in ('np_add', 'np_multiply', 'np_subtract'):
+            if y is None:
+                return
+            sx, sy = C.shape_of(x), C.shape_of(y)
+            if not (sx == sy or sx == () or sy == ()) or abs(fx[2] - C.fmt_of(y)[2]) > 50:
+                return
+            z = getattr(np, route[3:])(x, y)
+            parents = [x, y]
         elif route == 'deepcopy':
             z = x.deepcopy()
         elif route == 'like':
@@ -174,7 +184,7 @@ class World:
             raise ValueError(route)
         if not isinstance(z, F):
             raise Mismatch('derive/%s/not-fxp' % route, {'type': str(type(z))})
-        self.classes.append('derive:' + ('arith' if route in ('add', 'sub', 'mul', 'truediv', 'floordiv', 'mod', 'const') else route))
+        self.classes.append('derive:' + ('arith' if route in ('add', 'sub', 'mul', 'truediv', 'floordiv', 'mod', 'const', 'np_add', 'np_multiply', 'np_subtract') else route))
         self.independent(z, parents + [p for p in self.pool], 'derive/' + route)
         after = [snapshot(p) for p in self.pool]
         if before != after:
@@ -446,7 +456,7 @@ def replay(ctx, case):
 # ---------------------------------------------------------------- strategies
 RELONE = st.tuples(st.sampled_from(['hi', 'lo', 'zero', 'mid', 'far+', 'far-']), st.integers(-6, 6)).map(list)
 IDX = st.integers(0, 7)
-DERIVE_ROUTES = ['like_kw', 'template', 'from_fxp', 'deepcopy', 'like', 'resize', 'add', 'sub', 'mul', 'truediv', 'floordiv', 'mod', 'const', 'neg', 'abs', 'pos',
+DERIVE_ROUTES = ['ctor_sizes', 'np_add', 'np_multiply', 'np_subtract', 'like_kw', 'template', 'from_fxp', 'deepcopy', 'like', 'resize', 'add', 'sub', 'mul', 'truediv', 'floordiv', 'mod', 'const', 'neg', 'abs', 'pos',
                  'inv', 'and', 'or', 'xor', 'lshift', 'rshift', 'sum', 'cumsum', 'max', 'min', 'sort', 'transpose', 'clip', 'diagonal', 'trace', 'like', 'like_kw']
 CFG_MUT = [['rounding', 'ceil'], ['rounding', 'around'], ['overflow', 'wrap'], ['overflow', 'saturate'], ['shifting', 'keep'], ['op_sizing', 'same'],
            ['op_method', 'repr'], ['const_op_sizing', 'largest'], ['dtype_notation', 'Q'], ['op_input_size', 'best'], ['array_op_method', 'raw']]
